@@ -2,14 +2,17 @@
   Driver verb of C01's pass-widening tie (core Lean only):
 
     srcden <pre-id> <post-id> <pkg> <object> <json-sexp>
-      → plain=<b> src=<b> den=<b> mden=<b|err> why=<reason|-> notplain=<reason|->
+      → plain=<b> plainN=<b> src=<b> den=<b> mden=<b|err> why=<reason|-> notplain=<reason|-> notplainN=<reason|->
 
   `<pre-id>` / `<post-id>` name schema sets stored with `defschemas`: the PRE-chain IR (front-end
   output) and the REAL post-Go-chain IR of one lab case.  The driver evaluates, at one fuel,
     plain : `Plain pre`                                  (hypothesis of C01_pass_widening_plain_partial)
+    plainN: `PlainN pre`                                 (hypothesis of C01_pass_widening_nullable_partial)
     src   : `srcDen fuel pre (ref pkg object) doc`       (hypothesis)
-    den   : `den fuel post (ref pkg object) doc`         (conclusion, on the REAL passes' output)
-    mden  : `den fuel (runChain goChain pre) …`          (conclusion on the pass MODELS' output)
+    den   : `den (fuel+1) post (ref pkg object) doc`     (conclusion, on the REAL passes' output; for a
+                                                          plain `pre` the theorem gives `fuel` and `den` is
+                                                          monotone in the fuel, `den_mono`)
+    mden  : `den (fuel+1) (runChain goChain pre) …`      (conclusion on the pass MODELS' output)
   `why` explains a `src=false` (diagnostic walk mirroring `xden true`, no theorem depends on it),
   `notplain` names the first construct outside the plain fragment.
 -/
@@ -147,6 +150,28 @@ def plainTyWhy : Ty → Option String
   | .slot .. => some "composable-slot"
   | .bad .. => some "nil-type"
 
+/-- first construct outside `nrTy` (the fragment with `T | null` pairs) -/
+def nrTyWhy : Ty → Option String
+  | .array e _ => nrTyWhy e
+  | .map i v _ => if i.isScalar then nrTyWhy v else some "map-index"
+  | .disj bs i m =>
+    if nullPair bs then none
+    else if bs.length == 2 && hasNullType bs then some "disjunction-with-null-of-non-plain"
+    else plainTyWhy (.disj bs i m)
+  | t => plainTyWhy t
+
+def nrObjWhy : Ty → Option String
+  | .struct fs _ none _ => firstSome (fun (f : Field) => nrTyWhy f.ty) fs
+  | .struct _ _ (some _) _ => some "generated-union-struct"
+  | .enum .. => none
+  | t => nrTyWhy t
+
+def plainNWhy (S : Schemas) : Option String :=
+  firstSome (fun (s : Schema) =>
+    if !wfObjects s.objects then some "object-map-not-well-formed"
+    else if !plainEpt s.entryPointType then some "entry-point-type"
+    else firstSome (fun (ko : String × Obj) => nrObjWhy ko.2.ty) s.objects) S
+
 def plainObjWhy : Ty → Option String
   | .struct fs _ none _ => firstSome (fun (f : Field) => plainTyWhy f.ty) fs
   | .struct _ _ (some _) _ => some "generated-union-struct"
@@ -163,7 +188,9 @@ def plainWhy (S : Schemas) : Option String :=
 
 structure SrcPrep where
   plain : Bool
+  plainN : Bool
   notplain : String
+  notplainN : String
   model : Option Schemas      -- `runChain goChain pre`, none = err / panic
 
 initialize srcPrepStore : IO.Ref (Std.HashMap String SrcPrep) ← IO.mkRef {}
@@ -174,7 +201,9 @@ def srcPrep (id : String) (pre : Schemas) : IO SrcPrep := do
   | none =>
     let p : SrcPrep := {
       plain := Plain pre
+      plainN := PlainN pre
       notplain := (plainWhy pre).getD "-"
+      notplainN := (plainNWhy pre).getD "-"
       model := match runChain Cog.Gen.Chains.goChain pre with | .ok s => some s | _ => none }
     srcPrepStore.modify (·.insert id p)
     return p
@@ -190,12 +219,12 @@ def srcdenLine (rest : String) : IO String := do
         let prep ← srcPrep preId pre
         let t : Ty := .ref pkg obj {}
         let src := srcDen srcFuel pre t j
-        let dn := den srcFuel post t j
+        let dn := den (srcFuel + 1) post t j
         let mden := match prep.model with
-          | some m => toString (den srcFuel m t j)
+          | some m => toString (den (srcFuel + 1) m t j)
           | none => "err"
         let why := if src then "-" else (srcWhy pre srcFuel t j).getD "unexplained"
-        return s!"plain={prep.plain} src={src} den={dn} mden={mden} why={why} notplain={prep.notplain}"
+        return s!"plain={prep.plain} plainN={prep.plainN} src={src} den={dn} mden={mden} why={why} notplain={prep.notplain} notplainN={prep.notplainN}"
     | _, _ => return "unknown-schemas"
   | _ => return "bad-request"
 
